@@ -20,7 +20,7 @@ doprop() {
     echo "$P $(basename $m) $st $fps"
   done
 }
-: > mutants-matrix.txt
+[ $# -eq 0 ] && : > mutants-matrix.txt
 i=0
 for P in $props; do doprop $P >> mutants-matrix.$P.tmp & i=$((i+1)); [ $((i%4)) -eq 0 ] && wait; done; wait
 for P in $props; do cat mutants-matrix.$P.tmp >> mutants-matrix.txt; rm -f mutants-matrix.$P.tmp; done
